@@ -11,6 +11,7 @@ specific components are abstract and must be implemented by child classes.
 
 import errno
 import os
+import sys
 from abc import abstractmethod
 from threading import RLock
 from typing import Dict, Tuple, Union
@@ -63,7 +64,12 @@ class _BufferedLoadAndSave(_LoadAndSave):
 
     def __enter__(self):
         self._collection._buffer_lock.__enter__()
-        super().__enter__()
+        try:
+            super().__enter__()
+        except BaseException:
+            # See _LoadAndSave.__enter__.
+            self._collection._buffer_lock.__exit__(*sys.exc_info())
+            raise
 
     def __exit__(self, exc_type, exc_val, exc_tb):
         try:
